@@ -6,6 +6,7 @@
 //! * child-process runner with wall-clock watchdog and 8 MB main-thread stack
 //! * hand-rolled JSON report
 //! * CLI parsing common to the three binaries
+#![cfg_attr(miri, allow(dead_code, unused_imports))]
 
 use std::alloc::{GlobalAlloc, Layout, System};
 use std::cell::RefCell;
@@ -202,7 +203,6 @@ pub fn normalise_path(p: &str) -> String {
 }
 
 /// First backtrace frame that lies in /repo/src, as `src/...:line`.
-#[cfg(not(miri))]
 fn repo_frame_from_backtrace() -> Option<String> {
     let bt = std::backtrace::Backtrace::force_capture().to_string();
     for line in bt.lines() {
@@ -216,11 +216,6 @@ fn repo_frame_from_backtrace() -> Option<String> {
             }
         }
     }
-    None
-}
-
-#[cfg(miri)]
-fn repo_frame_from_backtrace() -> Option<String> {
     None
 }
 
